@@ -19,6 +19,10 @@ package main
 //   c12/third-party-debited/<class>   an equity entry decreased although its owner sent no included transfer of that id
 //   c12/negative-equity               a negative equity or supply is readable
 //   c12/frozen-moved/<class>          supply / equity of an asset changed in a block in which it was frozen throughout
+//   c12/frozen-asset-moved/<category> an executed transfer / burn / issue / replenish of an asset that is frozen BY CONSTRUCTION:
+//                                     the freeze state is the generator's own (create profile + every executed modify, in
+//                                     execution order), never read back from the implementation; category = token | non-fungible | common
+//   c12/freeze-flag-differs           the freeze flag read back differs from the generator's truth
 //   c12/minted-by-non-issuer/<class>  supply or holdings of an asset grew by more than its issuer issued / replenished in the block
 //   c12/honest-block-rejected         the validator path rejects the block the miner path produced
 
@@ -27,6 +31,7 @@ import (
 	"encoding/json"
 	"fmt"
 	"math/big"
+	"regexp"
 	"sort"
 	"strings"
 	"time"
@@ -45,6 +50,7 @@ type c12Tx struct {
 	orig  *types.Transaction // pristine copy (a box tx is rewritten in place when it is executed)
 	subs  []*c12Tx           // kind "box"
 	pkeys []string           // kind "modify": the profile keys it writes
+	fz    string             // kind "create" / "modify": the freeze value it carries ("-" / "none" / "big": none)
 	tx    *types.Transaction
 	line  string // the model's view of the tx
 	kind  string // create | issue | replenish | modify | transfer
@@ -63,6 +69,7 @@ type c12Asset struct {
 	div, repl, created bool
 	createdAt          uint32
 	keys               map[string]bool // profile keys the stored record has (harness ground truth)
+	frozen             bool            // generator's truth: create profile + every executed modify of the freeze key, in execution order
 }
 
 type c12Entry struct {
@@ -104,9 +111,10 @@ type c12s struct {
 	stop      bool
 	nilNext   bool // the next constructor call with receiver 0 builds a tx WITHOUT a To field (the engine then uses the zero address)
 	bigNext   bool // the next create carries a 700-character description: the marshalled asset exceeds MaxMarshalAssetLength
+	log       []string // op lines of this episode so far (block headers and tx / box / sub lines), for replays
 	clean     bool // episode without any foreign-asset-id input: every oracle failure in it is a NEW defect
-	stableH   uint32
-	unconf    int // blocks built since the last confirmed one
+	stableH   uint32 // height of the last block the HARNESS confirmed (InsertConfirms) — not read from the engine
+	unconf    int    // blocks built since the last confirmed one
 }
 
 func (s *c12s) hl(h common.Hash) int {
@@ -315,6 +323,27 @@ func (s *c12s) mkTo(from, to int, typ uint16, data string) *types.Transaction {
 	return s.mkRaw(from, &a, typ, data)
 }
 
+// freshHash: the hash of a new create / issue tx becomes a NEW label (asset code / asset id)
+func (s *c12s) freshHash(tx *types.Transaction) {
+	if _, ok := s.hashLabel[tx.Hash()]; ok {
+		s.c.Fail("c12/harness/hash-collision", "the hash of a newly built create / issue tx is already known: "+tx.Hash().Hex(), nil)
+	}
+}
+
+var c12Decimal = regexp.MustCompile(`^[+-]?[0-9]+$`)
+
+// checkAmount: for plain decimal tokens the amount the oracles work with (decoded by the real hexutil.Big10) must be what
+// math/big reads from the same text
+func (s *c12s) checkAmount(tok string, got *big.Int) {
+	if !strings.HasPrefix(tok, "s:") || !c12Decimal.MatchString(tok[2:]) {
+		return
+	}
+	want, ok := new(big.Int).SetString(tok[2:], 10)
+	if !ok || got == nil || want.Cmp(got) != 0 {
+		s.c.Fail("c12/harness/amount-parse", fmt.Sprintf("amount text %q: the implementation decodes %v, math/big reads %v", tok[2:], got, want), nil)
+	}
+}
+
 func b2i(b bool) int {
 	if b {
 		return 1
@@ -336,23 +365,26 @@ func (s *c12s) txCreate(from int, cat uint32, div, repl bool, decimal uint32, fz
 	pj, _ := json.Marshal(prof)
 	data := fmt.Sprintf(`{"category":%d,"isDivisible":%v,"decimal":%d,"isReplenishable":%v,"totalSupply":"12345","issuer":"%s","profile":%s}`, cat, div, decimal, repl, s.addrs[(from%s.nUsers)+1].String(), string(pj))
 	tx := s.mkRaw(from, nil, params.CreateAssetTx, data)
+	s.freshHash(tx)
 	h := s.hl(tx.Hash())
 	ks := map[string]bool{}
 	for k := range prof {
 		ks[k] = true
 	}
 	s.assets = append(s.assets, &c12Asset{code: h, issuer: from, cat: cat, div: div, repl: repl, keys: ks})
-	return &c12Tx{tx: tx, kind: "create", class: class, from: from, h: h,
+	return &c12Tx{tx: tx, kind: "create", class: class, from: from, h: h, fz: fz,
 		line: fmt.Sprintf("create %d %d %d %d %d %d %s %d", from, h, cat, b2i(div), b2i(repl), decimal, fz, b2i(big))}
 }
 
 func (s *c12s) txIssue(from, to int, code common.Hash, amtTok string, metaLen int, class string) *c12Tx {
 	data := fmt.Sprintf(`{"assetCode":"%s","metaData":"%s"%s}`, code.Hex(), strings.Repeat("m", metaLen), c12AmtJSON("supplyAmount", amtTok))
 	tx := s.mkTo(from, to, params.IssueAssetTx, data)
+	s.freshHash(tx)
 	x := &c12Tx{tx: tx, kind: "issue", class: class, from: from, to: to, h: s.hl(code), h2: s.hl(tx.Hash())}
 	if ia, err := types.GetIssueAsset(tx.Data()); err == nil {
 		x.amt = ia.Amount
 	}
+	s.checkAmount(amtTok, x.amt)
 	x.line = fmt.Sprintf("issue %d %d %d %d %d %s", from, to, x.h2, x.h, metaLen, amtTok)
 	return x
 }
@@ -364,6 +396,7 @@ func (s *c12s) txReplenish(from, to int, code, id common.Hash, amtTok string, cl
 	if ra, err := types.GetReplenishAsset(tx.Data()); err == nil {
 		x.amt = ra.Amount
 	}
+	s.checkAmount(amtTok, x.amt)
 	x.line = fmt.Sprintf("replenish %d %d %d %d %s", from, to, x.h, x.h2, amtTok)
 	return x
 }
@@ -387,7 +420,7 @@ func (s *c12s) txModify(from int, code common.Hash, fz string, class string) *c1
 	for k := range prof {
 		pk = append(pk, k)
 	}
-	return &c12Tx{tx: tx, kind: "modify", class: class, from: from, h: s.hl(code), pkeys: pk,
+	return &c12Tx{tx: tx, kind: "modify", class: class, from: from, h: s.hl(code), pkeys: pk, fz: fz,
 		line: fmt.Sprintf("modify %d %d %s", from, s.hl(code), fz)}
 }
 
@@ -398,6 +431,7 @@ func (s *c12s) txTransferA(from, to int, id common.Hash, amtTok string, class st
 	if ta, err := types.GetTransferAsset(tx.Data()); err == nil {
 		x.amt = ta.Amount
 	}
+	s.checkAmount(amtTok, x.amt)
 	x.line = fmt.Sprintf("transfer %d %d %d %d %s", from, to, x.h, s.codeKind[to], amtTok)
 	return x
 }
@@ -641,11 +675,23 @@ func (s *c12s) runBlockOpt(cands []*c12Tx, lag bool, probe *c12Tx) []string {
 	header := &types.Header{ParentHash: s.parent.Hash(), MinerAddress: miner, Height: s.parent.Height() + 1, GasLimit: s.parent.GasLimit(), Time: s.t}
 	stableBefore := s.n.BC.StableBlock().Height()
 	if stableBefore != s.stableH {
-		c.Fail("c12/harness/stable-height", fmt.Sprintf("stable block is %d, the harness expected %d", stableBefore, s.stableH), nil)
-		s.stableH = stableBefore
+		// s.stableH is the last block the harness itself confirmed: a lag block must really lag
+		c.Fail("c12/harness/stable-height", fmt.Sprintf("the engine's stable block is %d, the last block the harness confirmed is %d", stableBefore, s.stableH), nil)
 	}
 	if stableBefore != s.parent.Height() {
 		c.Count("block:stable-lags-behind-parent")
+	}
+	s.log = append(s.log, fmt.Sprintf("block %d %d", header.Height, stableBefore))
+	for _, x := range cands {
+		if x.kind == "box" {
+			s.log = append(s.log, x.line)
+			for _, sub := range x.subs {
+				s.log = append(s.log, "sub "+sub.line)
+			}
+			s.log = append(s.log, "boxend")
+		} else {
+			s.log = append(s.log, "tx "+x.line)
+		}
 	}
 	var dump string
 	res, pmsg := SafeMsg(func() string {
@@ -690,11 +736,11 @@ func (s *c12s) runBlockOpt(cands []*c12Tx, lag bool, probe *c12Tx) []string {
 				c.Fail("c12/harness/not-stable", fmt.Sprintf("block %d did not become stable", b.Height()), nil)
 			}
 			s.unconf = 0
+			s.stableH = b.Height()
 		} else {
 			s.unconf++
 			c.Count("block:left-unconfirmed")
 		}
-		s.stableH = s.n.BC.StableBlock().Height()
 		// the executed asset txs of this block, boxes flattened
 		var done []*c12Tx
 		for i, x := range cands {
@@ -708,6 +754,7 @@ func (s *c12s) runBlockOpt(cands []*c12Tx, lag bool, probe *c12Tx) []string {
 				done = append(done, x)
 			}
 		}
+		s.frozenTruth(b, done)
 		// bookkeeping of the harness' ground truth
 		for _, x := range done {
 			switch x.kind {
@@ -804,6 +851,117 @@ func (s *c12s) runBlockOpt(cands []*c12Tx, lag bool, probe *c12Tx) []string {
 
 // ---- direct oracles --------------------------------------------------------------------------
 
+// replayFor: the tx list that concerns an asset — every op line of this episode that names the asset code or the asset id,
+// under its block header
+func (s *c12s) replayFor(code, id int) []string {
+	var out []string
+	header := ""
+	wc, wi := fmt.Sprint(code), fmt.Sprint(id)
+	for _, l := range s.log {
+		if strings.HasPrefix(l, "block ") {
+			header = l
+			continue
+		}
+		hit := false
+		f := strings.Fields(l)
+		if len(f) > 1 {
+			// positions of the hash labels (asset code / asset id / own tx hash) per tx kind, after the "tx" / "sub" word
+			for _, i := range map[string][]int{"create": {3}, "issue": {4, 5}, "replenish": {4, 5}, "modify": {3}, "transfer": {4}}[f[1]] {
+				if i < len(f) && (f[i] == wc || f[i] == wi) {
+					hit = true
+				}
+			}
+		}
+		if hit {
+			if header != "" {
+				out = append(out, header)
+				header = ""
+			}
+			out = append(out, l)
+		}
+	}
+	return out
+}
+
+func c12CatName(cat uint32) string {
+	switch cat {
+	case types.TokenAsset:
+		return "token"
+	case types.NonFungibleAsset:
+		return "non-fungible"
+	case types.CommonAsset:
+		return "common"
+	}
+	return fmt.Sprintf("category-%d", cat)
+}
+
+// gtCode: the asset code an id belongs to, by the generator's own records (issue: id -> code; an asset code used as id)
+func (s *c12s) gtCode(id int) (int, bool) {
+	if c, ok := s.native[id]; ok {
+		return c, true
+	}
+	if as := s.asset(id); as != nil && as.created {
+		return id, true
+	}
+	return 0, false
+}
+
+// frozenTruth walks the EXECUTED asset txs of the block in execution order with the generator's own freeze state
+// (create profile, every executed modify of the freeze key; the checks under test read the in-block state too) and reports
+// every executed transfer / burn / issue / replenish of an asset that is frozen at that point. Nothing is read back.
+func (s *c12s) frozenTruth(b *types.Block, done []*c12Tx) {
+	c := s.c
+	for _, x := range done {
+		switch x.kind {
+		case "create":
+			if as := s.asset(x.h); as != nil {
+				as.frozen = x.fz == "true"
+			}
+		case "modify":
+			if as := s.asset(x.h); as != nil && as.created {
+				switch x.fz {
+				case "-", "none", "big":
+				default:
+					as.frozen = x.fz == "true"
+					if as.frozen {
+						c.Count("freeze-truth:frozen:" + c12CatName(as.cat))
+					} else {
+						c.Count("freeze-truth:unfrozen:" + c12CatName(as.cat))
+					}
+				}
+			}
+		case "transfer", "issue", "replenish":
+			code, ok := x.h, true
+			if x.kind == "transfer" {
+				code, ok = s.gtCode(x.h)
+				if ok && (s.taintID[x.h] || s.taint[code]) {
+					ok = false // an entry parked under a foreign id carries another code: recorded finding, not judged here
+				}
+			}
+			as := s.asset(code)
+			if !ok || as == nil || !as.created {
+				continue
+			}
+			if !as.frozen {
+				c.Count("freeze-truth:moved-while-not-frozen:" + x.kind + ":" + c12CatName(as.cat))
+				continue
+			}
+			what := x.kind
+			if x.kind == "transfer" {
+				switch {
+				case x.to == 0:
+					what = "burn to 0x0"
+				case s.codeKind[x.to] != 0:
+					what = "transfer to a contract"
+				default:
+					what = "transfer to an account"
+				}
+			}
+			c.Fail("c12/frozen-asset-moved/"+c12CatName(as.cat), fmt.Sprintf("block %d: asset c%d (category %d) is frozen by construction (create profile / executed modify txs), yet `%s` (%s) was executed", b.Height(), as.code, as.cat, x.line, what), s.replayFor(as.code, x.h))
+		}
+	}
+}
+
 func (s *c12s) asset(code int) *c12Asset {
 	for _, as := range s.assets {
 		if as.code == code {
@@ -826,6 +984,18 @@ func (s *c12s) oracles(b *types.Block, done []*c12Tx, v *c12View) {
 	p := s.prev
 	if p == nil {
 		return
+	}
+	// the flags the oracles below read back, against the generator's own records
+	for _, as := range s.assets {
+		if !as.created {
+			continue
+		}
+		if fz, ok := v.frozen[as.code]; ok && fz != as.frozen {
+			c.Fail("c12/freeze-flag-differs", fmt.Sprintf("block %d: asset c%d: the freeze flag read back is %v, the executed create / modify txs say %v", b.Height(), as.code, fz, as.frozen), s.replayFor(as.code, as.code))
+		}
+		if dv, ok := v.div[as.code]; ok && dv != as.div {
+			c.Fail("c12/harness/div-flag-differs", fmt.Sprintf("block %d: asset c%d: isDivisible read back is %v, created with %v", b.Height(), as.code, dv, as.div), nil)
+		}
 	}
 	negTransferTo := map[[2]int]bool{} // (receiver, id) of included transfers with a negative amount
 	negBurn := map[int]bool{}          // id of included negative-amount transfers to the burn address
@@ -1117,7 +1287,7 @@ func c12Episode(c *Ctx, nBlocks int, clean bool) {
 	}
 	// the model is the repaired code; there is no probe of the implementation
 	c.Op(fmt.Sprintf("init %d %d", len(s.addrs), s.parent.Height()), "ok")
-	s.stableH = n.BC.StableBlock().Height()
+	s.stableH = s.parent.Height() // the setup blocks were confirmed by the harness
 	s.prev = s.view(s.parent.Hash())
 	s.clean = clean
 	if clean {
@@ -1126,7 +1296,10 @@ func c12Episode(c *Ctx, nBlocks int, clean bool) {
 		c.Count("episodes:with-foreign-asset-id-inputs")
 	}
 
-	s.scripted()
+	s.scriptedFreeze()
+	if !s.stop {
+		s.scripted()
+	}
 	for blk := 0; blk < nBlocks && !s.stop; blk++ {
 		s.randomBlock()
 	}
